@@ -181,7 +181,8 @@ def build(job):
         tails = [eng.var(f"t{i}") for i in range(m)]
         eng.assume(And([z3.InRe(_s(t), alnum) for t in tails]))
         uris = [b + t for b, t in zip(bases, tails)]
-        c = disc.discover(list(reversed(uris)), delimiters=DELIMS[params["delims"]], metaprefix=mp)
+        kind = eng.choice("uris_as", ["list", "iter"])          # discover takes any Iterable[str]
+        c = disc.discover(iter(list(reversed(uris))) if kind == "iter" else list(reversed(uris)), delimiters=DELIMS[params["delims"]], metaprefix=mp)
         eng.expect(len(c.records) == m, "not one record per distinct learnable URI prefix")
         for i, b in enumerate(sorted(bases), start=1):      # (the converter lists its records by CURIE prefix: ns1, ns10, ns11, ns2, ...)
             owners = [r for r in c.records if sym_eq(r.uri_prefix, b)]
